@@ -1565,6 +1565,9 @@ class Exec:
             return NativeMethod(obj, name)
         if obj is None:
             raise PyRaise(make_exc(self.interp, "AttributeError", f"'NoneType' object has no attribute '{name}'"))
+        if isinstance(obj, Namespace) and not hasattr(obj, name):
+            # a module stand-in without a contract for this member: the real module may well have it -> undecided, never an AttributeError of the program
+            raise OutsideSubset(f"no stub for {obj._name}.{name}")
         try:
             return getattr(obj, name)
         except AttributeError:
@@ -1738,6 +1741,12 @@ class Exec:
         if isinstance(f, Func):
             c = self.interp.call_contracts.get(f.qualname)
             if c is not None and not (self.func is not None and False):
+                try:
+                    import inspect
+                    inspect.signature(c.fn).bind(self, *args, **kwargs)
+                except TypeError as e:
+                    # the call site no longer matches the signature the sidecar contract was written for: undecided, never a crash
+                    raise OutsideSubset(f"call of {f.qualname} does not match its sidecar contract's signature ({e})")
                 return c.fn(self, *args, **kwargs)
             return self.invoke(f, args, kwargs)
         if isinstance(f, Native):
